@@ -192,3 +192,38 @@ V('C09', 'update-schema-early-return', D, TX + 'update_schema',
   '        global_schema = new_schema.get_global_schema()\n', '        if user_schema is self._current.user_schema:\n            return\n        global_schema = new_schema.get_global_schema()\n', 'C09.R10', 'update_schema:records-both-schemas')
 V('C09', 'tx-caches-derived-schema', D, TX + 'update_modaliases',
   '        self._current = self._current._replace(modaliases=new_modaliases)', '        self._current = self._current._replace(modaliases=new_modaliases)\n        self._aliases_cache = new_modaliases', 'C09.R10', 'state-is-in-the-snapshot')
+
+# round 4
+V('C09', 'release-forgets-only-the-named-savepoint', 'edb/server/compiler/dbstate.py',
+  'edb.server.compiler.dbstate.Transaction._release_savepoint',
+  '''        sp_ids_to_erase = []
+        for sp in reversed(self._savepoints.values()):
+            sp_ids_to_erase.append(sp.id)
+
+            if sp.name == name:
+                break
+        else:
+            raise errors.TransactionError(f"there is no {name!r} savepoint")
+
+        for sp_id in sp_ids_to_erase:
+            self._savepoints.pop(sp_id)
+''', '''        for sp in reversed(self._savepoints.values()):
+            if sp.name == name:
+                self._savepoints.pop(sp.id)
+                return
+        raise errors.TransactionError(f"there is no {name!r} savepoint")
+''', 'C09.R6', '_release_savepoint:order')
+V('C09', 'root-schema-left-out-whenever-db-known', 'edb/server/compiler_pool/pool.py',
+  'edb.server.compiler_pool.pool.AbstractPool.compile_in_tx',
+  '''            worker_db = worker._dbs.get(dbname)
+            if worker_db is None:
+                dbname = None
+            elif worker_db.user_schema_pickle is user_schema_pickle:
+                user_schema_pickle = None
+            else:
+                dbname = None
+''', '''            if dbname in worker._dbs:
+                user_schema_pickle = None
+            else:
+                dbname = None
+''', 'C09.R11', 'root-schema-left-out')
